@@ -929,7 +929,7 @@ namespace avel {
 
     [[nodiscard]]
     AVEL_FINL vec4x64f fdim(vec4x64f x, vec4x64f y) {
-        return avel::max(x - y, vec4x64f{0.0});
+        return blend(x <= y, vec4x64f{0.0}, x - y);
     }
 
     [[nodiscard]]
